@@ -9,7 +9,7 @@ Inductive case :=
 | CLabel (cur s : str)
 | CUniverse (u : list label)
 | CPattern (u : list label) (cur s : str)
-| CKey (pkg name cmd : str) (ins : list str) (files : list (str * option str))
+| CKey (pkg name cmd : str) (ins : list str) (files : list (str * option (str * str)))
        (outs : list (str * str)) (deps : list str) (fp : list (str * str)) (multi : bool).
 
 Definition show_label (l : label) : str := tabs [hex (lpkg l); hex (lname l); hex (print_label l)].
@@ -41,21 +41,32 @@ Definition do_pattern (u : list label) (cur s : str) : str :=
       tabs [L "ok"; hex (pprefix p); hex (ptarget p); b01 (prec p); hex pr; matchvec p u; re; rp]
   end.
 
-(* List.assoc on the file table: first entry wins; a path that is not listed does not exist *)
-Fixpoint assoc_file (p : str) (l : list (str * option str)) : option str :=
+(* List.assoc on the file table: first entry wins; a path that is not listed does not exist.  A present file is listed with
+   its content and the digest the implementation computed for that content *)
+Fixpoint assoc_file (p : str) (l : list (str * option (str * str))) : option (str * str) :=
   match l with
   | [] => None
   | (k, v) :: l' => if str_eqb p k then v else assoc_file p l'
   end.
 
-Definition do_key (pkg name cmd : str) (ins : list str) (files : list (str * option str))
+(* the digest function handed to the model: the table content -> digest of the listed files, "?" elsewhere *)
+Fixpoint assoc_digest (c : str) (l : list (str * str)) : str :=
+  match l with
+  | [] => L "?"
+  | (k, d) :: l' => if str_eqb c k then d else assoc_digest c l'
+  end.
+
+Definition digest_table (files : list (str * option (str * str))) : list (str * str) :=
+  flat_map (fun e => match snd e with None => [] | Some cd => [cd] end) files.
+
+Definition do_key (pkg name cmd : str) (ins : list str) (files : list (str * option (str * str)))
            (outs : list (str * str)) (deps : list str) (fp : list (str * str)) (multi : bool) : str :=
-  let fs := fun p => assoc_file p files in
+  let fs := fun p => option_map fst (assoc_file p files) in
+  let h := fun c => assoc_digest c (digest_table files) in
   let outs' := map (fun ti => fst ti ++ L "::" ++ snd ti) outs in
   let st := mkT (mkLabel pkg name) cmd ins outs' deps fp (if multi then None else Some (L "lx/a64")) in
-  let cs := catmap (L ",") hex (comps st) in
-  let fl := if no_inputs st then L "none" else hex (encode_files fs st) in
-  tabs [cs; fl; if wf_state st then L "wf" else L "nwf"].
+  let fl := if no_inputs st then L "none" else hex (encode_files h fs st) in
+  tabs [hex (encode_def st); fl].
 
 Definition run_case (c : case) : str :=
   match c with
